@@ -14,6 +14,17 @@ def langs():
             "py": sys.modules["kojen.LanguagePython"].LanguagePython}
 
 
+def listing_order(base):
+    """template file names in the order the generator's `os.walk` meets them (the defaults of FOR tags are
+    collected over the files in that order: with competing defaults the output depends on it)"""
+    return [f for _, _, fs in os.walk(os.path.join(base, "tpl")) for f in fs]
+
+
+def in_listing_order(files, base, name=lambda f: f["name"]):
+    order = {n: i for i, n in enumerate(listing_order(base))}
+    return sorted(files, key=lambda f: order.get(name(f), len(order)))
+
+
 def real_run(runner, model, files_lines, usertags, base):
     """returns (captured code model as {name: lines} or None on exception, exception text, request for the model)"""
     # what the generator will read back: the text, cut after every newline
@@ -21,6 +32,7 @@ def real_run(runner, model, files_lines, usertags, base):
     tdir = os.path.join(base, "tpl")
     out = os.path.join(base, "out")
     engtpl.write_templates(files_lines, tdir)
+    files_lines = in_listing_order(files_lines, base, name=lambda f: f[0])
     m = copy.deepcopy(model)
     m["templatedir"] = tdir
     m["iface"] = dict(m["iface"], usertags=usertags)
